@@ -132,7 +132,13 @@ where
     let k = (workers as u64).min(n).max(1);
     // pending ranges per worker: (next item, stride)
     let mut next_item: Vec<u64> = (0..k).collect();
+    let mut deaths = 0u32;
     loop {
+        if deaths >= 3 {
+            // the subject keeps killing or hanging workers: the violations are recorded, stop
+            total.count("enumeration_cut_short_after_repeated_worker_deaths");
+            break;
+        }
         let active: Vec<u64> = (0..k).filter(|w| next_item[*w as usize] < n).collect();
         if active.is_empty() {
             break;
@@ -253,18 +259,10 @@ where
                         format!("{} while processing item {}: {}", why, last, describe(last)),
                         json!({"engine": "abort", "item": last, "what": describe(last)}),
                     );
-                    total.count("items_lost_to_abort_and_redone");
-                    // redo this worker's items from its start up to `last` is unnecessary for the
-                    // verdict; continue after the culprit (tallies of the dead worker are lost and
-                    // recomputed from its first item to keep counts exact)
-                    let first = w;
-                    let mut t = Tally::default();
-                    let mut i = first;
-                    while i < last {
-                        f(i, &mut t);
-                        i += k;
-                    }
-                    total.absorb(t);
+                    // The dead worker's tally is lost (counts of its completed items are not
+                    // re-done: subject code never runs in the parent); continue after the culprit.
+                    total.count("worker_deaths");
+                    deaths += 1;
                     next_item[w as usize] = last + k;
                 }
             }
